@@ -48,7 +48,7 @@ type c11Op struct {
 func (c11) ID() string    { return "C11" }
 func (c11) Level() string { return "exploration" }
 func (c11) Rule() string {
-	return "three layers, all seeded. seq: store / delete / lookup / lookup-most-recent sequences over <= 5 keys with capacities 1..4 (and larger), the same session object sometimes stored under two keys (as the client does), compared with a reference LRU after every operation: result, size <= capacity, and - through the hook - that no session still reachable under some key had its master secret changed. conc: 3-4 tasks issue operations on one cache under the vs kernel (pre-emption at the cache mutex), the history stamped with kernel sequence numbers is checked with porcupine against the same model; race build. conn: histories of honest connections between one client and 1-3 servers through client and server caches of capacity 1..3: every connection must succeed - also when 2-3 of them run concurrently through the same client cache while others fail and delete the session they offered. Capacities below 1 mean 64. distinct = distinct operation sequences / histories; non-trivial = an eviction or a deletion happened"
+	return "three layers, all seeded. seq: store / delete / lookup / lookup-most-recent sequences over <= 5 keys with capacities 1..4 (and larger), the same session object sometimes stored under two keys (as the client does), compared with a reference LRU after every operation: result, size <= capacity, and - through the hook - that no session still reachable under some key had its master secret changed. conc: 3-4 tasks issue operations on one cache under the vs kernel (pre-emption at the cache mutex), the history stamped with kernel sequence numbers is checked with porcupine against the same model; race build. conn: histories of honest connections between one client and 1-3 servers through client and server caches of capacity 1..3: every connection must succeed - also when 2-3 of them run concurrently through the same client cache while others fail and delete the session they offered. Capacities below 1 mean 64. One case in forty of the seq layer requests a large capacity (1024-5000) and stores capacity + 0..5 distinct keys: exactly the oldest surplus may be gone. distinct = distinct operation sequences / histories; non-trivial = an eviction or a deletion happened"
 }
 func (c11) Components() (real, stub []string) {
 	return []string{"lruSessionCache of tlcp and dtlcp", "tlcp/dtlcp client+server (conn mode)", "Go race detector (conc mode)"},
